@@ -1142,3 +1142,13 @@ def c11_n(ctx):
             match_any(ctx.ex(m).term(rr[0].value), pats) is not None
         ctx.check(ok, m, 'predicate `{}`'.format(nm), pats[0],
                   '`{}` is not `{}`'.format(nm, pats[0]), fn=m, node=rr[0] if rr else m.node)
+
+
+@obligation('C11-o', 'T1 T8', 'the acquired points are supplied to the model as node outputs '
+            '(shared with C03-e)', floor=6,
+            necessary='acquired points that are not written into the loaded net are replaced by '
+                      'prior draws: what is simulated is neither inside the bounds by '
+                      'construction nor what the acquisition rule chose')
+def c11_o(ctx):
+    from .C03 import c03_e
+    c03_e(ctx)
